@@ -1307,6 +1307,10 @@ fn extract_fn(file: &syn::File, src: &Src, it: &Item) -> ItemOut {
     for an in &it.anchors {
         if !cx.anchors_found.contains(&an.id) {
             cx.errors.push(format!("lost anchor: hint anchor {} ({} `{}` loop {})", an.id, an.where_, an.text, an.loop_));
+        } else if an.occ == 0 && (an.where_ == "before" || an.where_ == "after") && cx.anchor_occ.get(&an.id).copied().unwrap_or(0) > 1 {
+            // a text anchor without an explicit occurrence number must identify ONE statement: otherwise a rewrite of the
+            // intended statement would silently move the hint to another match (a misplaced hint can fail a proof on correct code)
+            cx.errors.push(format!("lost anchor: hint anchor {} ({} `{}`) is ambiguous: {} statements start with this text (make it longer or give #k)", an.id, an.where_, an.text, cx.anchor_occ.get(&an.id).copied().unwrap_or(0)));
         }
     }
     for (k, _) in &it.closures {
@@ -1498,7 +1502,10 @@ fn inventory(file: &syn::File, src: &Src, it: &Item) -> ItemOut {
         }
         fn visit_expr_binary(&mut self, b: &'ast syn::ExprBinary) {
             // multiplication / addition sites with two non-literal operands (used by tools/commute_probe.py)
-            let kind = match b.op { syn::BinOp::Mul(_) => Some("mul"), syn::BinOp::Add(_) => Some("add"), _ => None };
+            let kind = match b.op {
+                syn::BinOp::Mul(_) => Some("mul"), syn::BinOp::Add(_) => Some("add"),
+                syn::BinOp::Eq(_) | syn::BinOp::Ne(_) | syn::BinOp::Lt(_) | syn::BinOp::Le(_) | syn::BinOp::Gt(_) | syn::BinOp::Ge(_) => Some("cmp"),
+                _ => None };
             if let Some(kind) = kind {
                 if !matches!(&*b.left, syn::Expr::Lit(_)) && !matches!(&*b.right, syn::Expr::Lit(_)) && !self.cur.is_empty() {
                     let (ls, le) = self.src.range(b.left.span());
@@ -1509,6 +1516,7 @@ fn inventory(file: &syn::File, src: &Src, it: &Item) -> ItemOut {
                     row.insert("line".to_string(), self.src.line_of(ls).to_string());
                     row.insert("left".to_string(), format!("{ls}:{le}"));
                     row.insert("right".to_string(), format!("{rs}:{re}"));
+                    row.insert("op".to_string(), self.src.text[le..rs].trim().to_string());
                     self.rows.push(row);
                 }
             }
